@@ -19,6 +19,8 @@ class HavocScheduler(BaseScheduler):
         la = cfg.get("lookahead", 0)
         if la == "sym":
             la = W.env.int("lookahead", 0, 2 ** 30)
+        elif isinstance(la, (list, tuple)):  # ["sym", lo, hi]
+            la = W.env.int("lookahead", la[1], la[2])
         pol = getattr(BranchPredictionPolicy, cfg.get("branch_policy", "ALL"))
         super().__init__(preemptive=False, runtime=runtime, lookahead=EventTime(la, US), enforce_deadlines=False,
                          policy=pol, retract_schedules=bool(cfg.get("retract", False)),
